@@ -629,7 +629,8 @@ static void space_threads(void)
 				}
 			}
 			if (e.diverged) { printf("HARNESS schedule replay diverged\n"); break; }
-		} while (!free_running && vf_enum_next(&e) && !VF.stop && schedules < 2000000 && VF.violations < 20);
+		} while (!free_running && vf_enum_next(&e) && !VF.stop && schedules < 400000 && VF.violations < 20);
+		if (schedules >= 400000) { VF.stop = 1; printf("NOTE pair%d.%d-capped=1\n", pa, pb); }
 		printf("NOTE pair%d.%d=schedules:%ld,max-switches:%ld\n", pa, pb, schedules, maxsw);
 		if (maxsw > 0 || free_running) vf_nontrivial(vf_mix(pa * 16 + pb, bound));
 		vf_outcome(vf_mix(schedules, pa * 16 + pb));
